@@ -39,7 +39,21 @@ func (p *Program) newDataRoots(fb funcBody) *dataRoots {
 	}
 	if fd != nil && !initOnly {
 		addParams(fd.Recv)
-		addParams(fd.Type.Params)
+		if fb.Decl.Exported() || fd.Recv != nil {
+			addParams(fd.Type.Params)
+		} else if fd.Type.Params != nil {
+			// an unexported function: its AST-typed parameters are input data;
+			// so is a single character (rune/byte) of the text; a plain slice,
+			// string or count is whatever its (few) callers computed, and the
+			// guard may live there
+			for _, f := range fd.Type.Params.List {
+				for _, n := range f.Names {
+					if o := p.Info.Defs[n]; o != nil && (d.isASTType(o.Type()) || isCharType(o.Type())) {
+						d.kind[o] = "param"
+					}
+				}
+			}
+		}
 	}
 	if fb.Lit != nil {
 		addParams(fb.Lit.Type.Params)
@@ -172,4 +186,9 @@ func (d *dataRoots) rootedDef(def ast.Expr, depth int) bool {
 		return false
 	}
 	return d.rooted(def, depth)
+}
+
+func isCharType(t types.Type) bool {
+	b, ok := t.Underlying().(*types.Basic)
+	return ok && (b.Kind() == types.Int32 || b.Kind() == types.Uint8)
 }
